@@ -237,7 +237,14 @@ func run(r *hx.Run) error {
 	}
 	rng := gen.New(r.Seed)
 	if r.Replay != "" {
-		return hx.ReplayOps(r, func(op []string) (string, bool) { return "", false })
+		return hx.ReplayOps(r, func(op []string) (string, bool) {
+			if c, ok := parseImgOp(op); ok { // an image scenario is determined by its op line: run it again
+				if res, err := imgRun(r, c); err == nil {
+					return res, true
+				}
+			}
+			return "", false
+		})
 	}
 	// the cursor-in-column-2 scenario of the fixed explicit-width probe defect, for every subset of a few bits
 	for adv := uint32(0); adv < 1<<19; adv += 1 << 15 {
@@ -278,6 +285,14 @@ func run(r *hx.Run) error {
 		if err := apiCase(r, arng.Fork(uint64(i))); err != nil {
 			return err
 		}
+	}
+	// image objects at run time: all 2^3 graphics advertisements x 3 pixel-size situations x random other capabilities
+	ni := 6
+	if r.Thorough {
+		ni = 60
+	}
+	if err := imgCases(r, gen.New(r.Seed^0x1396a7), ni); err != nil {
+		return err
 	}
 	n := 3000
 	if r.Thorough {
